@@ -1185,9 +1185,9 @@ func (d Driver) Run(c *core.Ctx) error {
 
 	// 1. model level
 	mc := []tlc.Opts{
-		{Module: "Measure", Config: cfg(8, 0, "pyth", `{"L"}`, "{1}", c.Pick(100, 1500), true), Seed: c.Seed, Workers: 4, HeapGB: 3, Coverage: c.Thorough(), Timeout: 20 * time.Minute},
-		{Module: "Measure", Config: cfg(10, 0, "curves", all, fams10, c.Pick(40, 500), true), Seed: c.Seed, Workers: 4, HeapGB: 3, Timeout: 20 * time.Minute},
-		{Module: "Measure", Config: cfg(6, 1, "chord", `{"L","A"}`, "{1}", c.Pick(40, 400), true), Seed: c.Seed, Workers: 2, HeapGB: 2, Timeout: 20 * time.Minute},
+		{Module: "Measure", Config: cfg(8, 0, "pyth", `{"L"}`, "{1}", c.Pick(80, 1200), true), Seed: c.Seed, Workers: 4, HeapGB: 3, Coverage: c.Thorough(), Timeout: 20 * time.Minute},
+		{Module: "Measure", Config: cfg(10, 0, "curves", all, fams10, c.Pick(30, 400), true), Seed: c.Seed, Workers: 4, HeapGB: 3, Timeout: 20 * time.Minute},
+		{Module: "Measure", Config: cfg(6, 1, "chord", `{"L","A"}`, "{1}", c.Pick(40, 300), true), Seed: c.Seed, Workers: 2, HeapGB: 2, Timeout: 20 * time.Minute},
 	}
 	// 2. spec -> code
 	var jobs []tlc.Opts
@@ -1195,18 +1195,19 @@ func (d Driver) Run(c *core.Ctx) error {
 		jobs = append(jobs, tlc.Opts{Module: "Measure", Config: cfg(n, nc, mode, kinds, fams, num, false), Seed: c.Seed + off, Workers: 4, HeapGB: 3, Timeout: 30 * time.Minute})
 	}
 	if c.Thorough() {
-		gen(8, 0, "pyth", `{"L"}`, "{1}", 40000, 0)
-		gen(8, 1, "pyth", `{"L"}`, "{1}", 15000, 1)
-		gen(10, 0, "curves", all, fams10, 6000, 2)
-		gen(10, 1, "curves", `{"A"}`, fams10, 4000, 3)
-		gen(20, 0, "curves", `{"L","A"}`, "{1,2,3,4,5,6,7,8,9,10,11}", 4000, 4)
-		gen(30, 1, "curves", `{"A"}`, famsAll, 2500, 5)
-		gen(8, 0, "curves", `{"L","Q","C"}`, "{1}", 6000, 6)
-		gen(6, 1, "curves", `{"C"}`, "{1}", 4000, 7)
-		gen(6, 1, "chord", `{"L","A"}`, "{1}", 4000, 8)
-		gen(12, 0, "curves", `{"L"}`, "{1}", 6000, 9)
+		gen(8, 0, "pyth", `{"L"}`, "{1}", 9000, 0)
+		gen(8, 1, "pyth", `{"L"}`, "{1}", 5000, 1)
+		gen(10, 0, "curves", all, fams10, 3500, 2)
+		gen(10, 1, "curves", `{"A"}`, fams10, 2500, 3)
+		gen(20, 0, "curves", `{"L","A"}`, "{1,2,3,4,5,6,7,8,9,10,11}", 2000, 4)
+		gen(30, 1, "curves", `{"A"}`, famsAll, 1200, 5)
+		gen(8, 0, "curves", `{"L","Q","C"}`, "{1}", 3000, 6)
+		gen(6, 1, "curves", `{"C"}`, "{1}", 2500, 7)
+		gen(8, 1, "curves", `{"Q"}`, "{1}", 1500, 10)
+		gen(6, 1, "chord", `{"L","A"}`, "{1}", 2000, 8)
+		gen(12, 0, "curves", `{"L"}`, "{1}", 2500, 9)
 	} else {
-		gen(8, 0, "pyth", `{"L"}`, "{1}", 1000, 0)
+		gen(8, 0, "pyth", `{"L"}`, "{1}", 800, 0)
 		gen(10, 0, "curves", all, fams10, 300, 2)
 		gen(20, 1, "curves", `{"A"}`, "{1,2,3,4,5,6,7,8,9,10,11}", 200, 4)
 		gen(30, 1, "curves", `{"A"}`, "{8,9,12}", 50, 5)
